@@ -23,11 +23,6 @@ set_option linter.unusedSimpArgs false
 namespace SshAudit.GenLogic
 open SshAudit
 
-theorem fmtD_natCast (n : Nat) : Py.fmtD (n : Int) = Text.natToStr n := by
-  unfold Py.fmtD
-  have : ¬ ((n : Int) < 0) := by omega
-  simp [this]
-
 /-! ### ssh_socket.py `send_packet` (C10): padding and length field -/
 
 /-- the two numbers `send_packet` computes from the payload: the padding length and the `packet_length` field -/
@@ -160,10 +155,6 @@ theorem read_packet1_reject_iff_model (plen : Nat) :
   omega
 
 /-! ### gextest.py `GEXTest.run` (C12): the early exit of the probe loop and the follow-up flag (`-1` = no modulus obtained) -/
-
-def encSize : Option Nat → Int
-  | some n => (n : Int)
-  | none => -1
 
 /-- `if bits >= smallest_modulus > 0: break` is the test of `Gex.loop` -/
 theorem gex_early_exit_eq_model (b : Nat) (sm : Option Nat) :
